@@ -83,6 +83,7 @@ func writeEvidence(c *Check, res *checkResult) {
 		"library_goroutines_leaked":          a.Leaked,
 		"pool_items_max":                     a.PoolItemsMax,
 		"corpus":                             c.CStats,
+		"further_rounds_with_derived_seeds":  c.Rounds,
 		"corpus_growth":                      c.Grow,
 		"literals_new_vs_baseline_tree":      c.Novel,
 		"capacity_knobs":                     map[string]interface{}{"found": e.Report.Knobs, "variant": c.Knob},
